@@ -46,6 +46,9 @@ type Engine struct {
 	ghosts     map[string]GhostField // "pkg.Type.field"
 	immut      map[*ssa.Global]error
 	gconsts    map[*ssa.Global]*globalConst
+	mapTables  map[*ssa.Global]*mapTable
+	tableGlobals map[string]*ssa.Global
+	tableNames   map[*ssa.Global]string
 	funcsCache []*ssa.Function
 }
 
@@ -105,7 +108,7 @@ func loadEngine(repo, verif string) (*Engine, error) {
 		specSigs: map[string]*SpecSig{}, specFiles: map[string]string{}, specDeps: map[string][]string{}, binds: map[string]string{},
 		keySorts: map[string]string{}, heapInit: map[string]func(*VC, string){}, globalInit: map[string]func(*VC, string){},
 		effects: map[*ssa.Function]*modSet{}, modKeys: map[*ssa.Function]map[string]bool{}, typeTags: map[string]int{},
-		globIdx: map[*ssa.Global]int{}, assumptions: map[string]bool{}, ghosts: map[string]GhostField{}, immut: map[*ssa.Global]error{}, gconsts: map[*ssa.Global]*globalConst{}}
+		globIdx: map[*ssa.Global]int{}, assumptions: map[string]bool{}, ghosts: map[string]GhostField{}, immut: map[*ssa.Global]error{}, gconsts: map[*ssa.Global]*globalConst{}, mapTables: map[*ssa.Global]*mapTable{}, tableGlobals: map[string]*ssa.Global{}, tableNames: map[*ssa.Global]string{}}
 	cfg := &packages.Config{Mode: packages.LoadSyntax, Dir: repo, BuildFlags: []string{"-tags=verif"},
 		Env: append(os.Environ(), "GOFLAGS=-mod=mod", "GOPROXY=off", "GOSUMDB=off", "GOTOOLCHAIN=local")}
 	pkgs, err := packages.Load(cfg, "rcproxy/core/...")
@@ -143,6 +146,7 @@ func loadEngine(repo, verif string) (*Engine, error) {
 			e.ghosts[p.PkgPath+"."+g.Type+"."+g.Field] = g
 		}
 	}
+	e.registerMapTables()
 	e.trusted, err = loadTrustedSpecs(filepath.Join(verif, "spec", "trusted"))
 	if err != nil {
 		return nil, err
@@ -205,8 +209,8 @@ func normSort(s string) string {
 	switch s {
 	case "Slice":
 		return SSlice
-	case "ByteMem":
-		return arrSort(SInt, arrSort(SInt, bvSort(8)))
+	case "ByteArr":
+		return arrSort(SInt, bvSort(8))
 	}
 	return s
 }
@@ -446,17 +450,22 @@ func (e *Engine) verifyFunc(fn *ssa.Function, spec *FuncSpec) (vc *VC, err error
 		targets = vc.modTargets(env, spec)
 	}
 	res, out, opc := vc.execFunc(fr, args, st, "true")
-	env2 := &Env{vc: vc, vars: withNamedResults(env.vars, fn.Signature.Results(), res), cur: out, old: fr.entry, pkg: fn.Pkg, results: res}
-	for i, en := range spec.Ensures {
-		g := vc.evalBool(env2, en.Expr)
-		lab := en.Label
-		if lab == "" {
-			lab = fmt.Sprint(i)
+	_ = res
+	_ = out
+	// postconditions and frame are checked at every return separately (simpler queries than on the merged exit state)
+	for _, rt := range fr.rets {
+		env2 := &Env{vc: vc, vars: withNamedResults(env.vars, fn.Signature.Results(), rt.vals), cur: rt.st, old: fr.entry, pkg: fn.Pkg, results: rt.vals}
+		for i, en := range spec.Ensures {
+			g := vc.evalBool(env2, en.Expr)
+			lab := en.Label
+			if lab == "" {
+				lab = fmt.Sprint(i)
+			}
+			vc.oblige("ensures", lab, rt.pc, g, fn.Pos(), en.Src)
 		}
-		vc.oblige("ensures", lab, opc, g, fn.Pos(), en.Src)
-	}
-	if spec.HasModifies || spec.Pure {
-		vc.frameObligations(fr, out, opc, targets)
+		if spec.HasModifies || spec.Pure {
+			vc.frameObligations(fr, rt.st, rt.pc, targets)
+		}
 	}
 	if opc != "false" {
 		vc.cover("return", opc)
@@ -524,4 +533,52 @@ func (vc *VC) frameObligations(fr *Frame, out *State, opc string, targets []modT
 			vc.oblige("frame", label, opc, goal, fr.fn.Pos(), "heap "+k+" outside modifies unchanged")
 		}
 	}
+}
+
+// registerMapTables makes <fname>_has/<fname>_val of every `table` declaration on a map variable
+// available to contracts (their definitions are generated from the source literal on demand).
+func (e *Engine) registerMapTables() {
+	for path, ps := range e.specs {
+		var sp *ssa.Package
+		for _, p := range e.prog.AllPackages() {
+			if p.Pkg.Path() == path {
+				sp = p
+			}
+		}
+		if sp == nil {
+			continue
+		}
+		for gname, fname := range ps.Tables {
+			g, ok := sp.Members[gname].(*ssa.Global)
+			if !ok {
+				continue
+			}
+			m, ok := g.Type().(*types.Pointer).Elem().Underlying().(*types.Map)
+			if !ok {
+				continue
+			}
+			file := "@table:" + path + "." + gname
+			e.tableGlobals[file] = g
+			e.tableNames[g] = fname
+			ksort, vsort := goSortName(m.Key()), goSortName(m.Elem())
+			e.specSigs[fname+"_has"] = &SpecSig{Name: fname + "_has", Args: []string{ksort}, Res: SBool, File: file}
+			e.specSigs[fname+"_val"] = &SpecSig{Name: fname + "_val", Args: []string{ksort}, Res: vsort, File: file}
+		}
+	}
+}
+
+func goSortName(t types.Type) string {
+	if isInt, uns, w := basicInfo(t); isInt {
+		if uns {
+			return bvSort(w)
+		}
+		return SInt
+	}
+	if isStringType(t) {
+		return SStr
+	}
+	if isBoolType(t) {
+		return SBool
+	}
+	return SInt
 }
